@@ -328,6 +328,8 @@ class ShareableThreadLock:
         if self._condition.acquire(blocking=blocking):
             acquired = False
             try:
+                if not reentrant and self._acquired_by[thread_id]:
+                    raise RecursiveDeadlockError()
                 this_thread_count = Counter({thread_id: self._acquired_by[thread_id]})
                 if blocking:
                     # NOTE: We could use self._acquired_by != this_thread_count in
